@@ -1,7 +1,7 @@
 (** C16 — refutation witnesses for the behaviour of the current code that violates the property,
     non-vacuity examples for the guarded theorems, and the gathered statements. *)
 From V Require Import Base.Util Gql.Ast Writer.Wop C16.Model C16.Spec
-  C16.ProofsTemplate C16.ProofsString C16.ProofsStrip C16.ProofsDoc C16.ProofsReindent C16.SpecLex C16.LexGuard C16.ProofsGlue C16.ProofsLex1 C16.ProofsLex2 C16.ProofsLex3.
+  C16.ProofsTemplate C16.ProofsString C16.ProofsStrip C16.ProofsDoc C16.ProofsReindent C16.SpecLex C16.LexGuard C16.ProofsGlue C16.ProofsLex1 C16.ProofsBlock C16.ProofsLex2 C16.ProofsLex3.
 Local Open Scope N_scope.
 
 (** ** the full statements (not provable for the current code: see the refutations) *)
@@ -232,7 +232,7 @@ Definition ex_lx : tsdoc :=
     TSTypeExt (TEUnion pos0 (ex_id "U") [] [ex_id "User"]) ].
 
 Example tsdoc_lx_example :
-  tsdoc_lx ex_lx = true /\ (60 < length (tokens_of_tsdoc ex_lx))%nat
+  tsdoc_lx_raw ex_lx = true /\ (60 < length (tokens_of_tsdoc ex_lx))%nat
   /\ gql_lex (just_run (print_tsdoc_ext ex_lx)) = Some (tokens_of_tsdoc ex_lx).
 Proof. vm_compute. repeat split. lia. Qed.
 
@@ -240,5 +240,67 @@ Proof. vm_compute. repeat split. lia. Qed.
     not among the tokens of the document *)
 Example extend_union_tokens_refuted :
   let d := [TSTypeExt (TEUnion pos0 (mkId (s "U") pos0) [dir_a] [])] in
-  tsdoc_lx d = false /\ lex (just_run (print_tsdoc_ext d)) = Some (tokens_of_tsdoc d ++ [TP 61]).
+  tsdoc_lx_raw d = false /\ lex (just_run (print_tsdoc_ext d)) = Some (tokens_of_tsdoc d ++ [TP 61]).
 Proof. vm_compute. split; reflexivity. Qed.
+
+(** ** block strings: a non-trivial multi-line value in the guard, and its round trip through the
+    printer, the writer at indentation 4, and the specification's reading *)
+Definition ex_block : str :=
+  [LF] ++ s "  Returns the ""current"" user," ++ [LF] ++ s "    or `null` \ ${nothing}." ++ [LF; LF] ++ s "  See #42" ++ [LF] ++ s "  ".
+
+Example block_lit_example :
+  block_lit ex_block = true /\ plain ex_block = true
+  /\ snorm ex_block = s "Returns the ""current"" user," ++ [LF] ++ s "  or `null` \ ${nothing}." ++ [LF; LF] ++ s "See #42"
+  /\ lex_spec (just_run [Indent; Indent; W (s "x " ++ [LF]); W (print_string ex_block); W [LF]]) = Some [TW (s "x"); TS (snorm ex_block)]
+  /\ lex (just_run [Indent; Indent; W (s "x " ++ [LF]); W (print_string ex_block); W [LF]]) <> Some [TW (s "x"); TS ex_block].
+Proof. vm_compute. repeat split. discriminate. Qed.
+
+(** a document with multi-line descriptions on a type and on a field (as nitrogql holds them: raw) *)
+Definition ex_lx_spec : tsdoc :=
+  [ TSType (TDObject (Some (mkDesc pos0 ([LF] ++ s "A user." ++ [LF] ++ s "Second line." ++ [LF]))) pos0 (ex_id "User") [] []
+       [mkFieldDef (Some (mkDesc pos0 ex_block)) (ex_id "id") None (TNonNull (TNamed (ex_id "ID"))) [];
+        mkFieldDef None (ex_id "f")
+          (Some [mkInputVal (Some (mkDesc pos0 (s "one" ++ [LF] ++ s "  two"))) pos0 (ex_id "a") (TNamed (ex_id "String"))
+                   (Some (ex_str (s "a" ++ [LF] ++ s "b"))) []])
+          (TNamed (ex_id "Int")) []]
+       (mkKw (s "type") pos0)) ].
+
+Example tsdoc_lx_spec_example :
+  tsdoc_lx_spec ex_lx_spec = true /\ tsdoc_lx_raw ex_lx_spec = false
+  /\ lex_spec (just_run (print_tsdoc_ext ex_lx_spec)) = Some (tokens_spec_tsdoc ex_lx_spec)
+  /\ lex (just_run (print_tsdoc_ext ex_lx_spec)) <> Some (tokens_of_tsdoc ex_lx_spec).
+Proof. vm_compute. repeat split. discriminate. Qed.
+
+(** ** end to end: the value exported by the module written for serverGraphqlOutput lexes, under the
+    specification's reading, to the token sequence of the checked schema minus the nitrogql-only
+    directives *)
+Lemma lex_with_lf val x : lex_with val (LF :: x) = lex_with val x.
+Proof. reflexivity. Qed.
+
+Theorem server_module_lexes : forall model_plugin d,
+  directives_placed model_plugin d = true ->
+  tsdoc_ok (spec_server_schema model_plugin d) = true ->
+  tsdoc_lx_spec (spec_server_schema model_plugin d) = true ->
+  exists t, module_value (server_module model_plugin d) = Some t
+            /\ lex_spec t = Some (tokens_spec_tsdoc (spec_server_schema model_plugin d)).
+Proof.
+  intros mp d Hp Hok Hlx. eexists. split; [apply server_module_value; assumption|].
+  unfold lex_spec. rewrite lex_with_lf. apply print_tsdoc_lex_spec. exact Hlx.
+Qed.
+
+(** one write of any text without a carriage return: what JsStringWriter writes evaluates to what
+    JustWriter writes *)
+Theorem template_single_write : forall x,
+  no_cr x = true -> eval_template (js_run [W x]) = Some (LF :: just_run [W x]).
+Proof.
+  intros x H. apply template_roundtrip.
+  - cbn [no_cr_ops forallb chunk_of]. rewrite H. reflexivity.
+  - cbn [no_split_dollar next_starts_brace]. rewrite andb_false_r. reflexivity.
+Qed.
+
+(** a pair of escaped surrogates is one supplementary code point; a lone one is not a value *)
+Example surrogate_pair_example :
+  lex_string [34; 92; 117; 100; 56; 51; 100; 92; 117; 100; 101; 48; 48; 34] = Some (TNormal [128512], [])
+  /\ lex_string [34; 92; 117; 100; 56; 51; 100; 34] = None
+  /\ lex_string [34; 92; 117; 100; 101; 48; 48; 34] = None.
+Proof. vm_compute. auto. Qed.
